@@ -24,6 +24,7 @@ have an on/off switch and never raise into the code under test except for the in
 """
 from __future__ import annotations
 
+import atexit
 import dataclasses
 import fnmatch
 import hashlib
@@ -185,7 +186,7 @@ class _Monitor:
 
     # ---- installation ------------------------------------------------------------------
     def install(self):
-        if self.installed:
+        if self.tool is not None:
             return
         mon = sys.monitoring
         for tool in (3, 4, 5, 2, 1, 0):
@@ -198,8 +199,23 @@ class _Monitor:
         mon.register_callback(self.tool, mon.events.PY_START, self._on_start)
         mon.register_callback(self.tool, mon.events.PY_RETURN, self._on_return)
         mon.set_events(self.tool, mon.events.PY_START | mon.events.PY_RETURN)
-        sys.addaudithook(self._audit)
+        mon.restart_events()
+        if not self.installed:
+            sys.addaudithook(self._audit)
+            atexit.register(self.uninstall_monitoring)
         self.installed = True
+
+    def uninstall_monitoring(self):
+        """ the audit hook cannot be removed (it stays switched off); the monitoring tool can """
+        self.audit_on = self.mon_on = False
+        if self.tool is not None:
+            mon = sys.monitoring
+            mon.set_events(self.tool, 0)
+            mon.register_callback(self.tool, mon.events.PY_START, None)
+            mon.register_callback(self.tool, mon.events.PY_RETURN, None)
+            mon.free_tool_id(self.tool)
+            self.tool = None
+            self.codeclass = {}
 
     def reset(self, fault=None, watch_exact=(), watch_prefix=None):
         self.trace = []
@@ -594,6 +610,15 @@ def _attempt(results, variant, path, fault):
     return error, _M.trace, sink
 
 
+def _warm(results):
+    """ an unobserved conversion: fills the lazily computed caches of records and features (area numbers, ...) so
+        that the sequence of auxiliary events is the same in every observed run """
+    try:
+        serialiser.dump_records(results.results, results.records)
+    except Exception:  # pylint: disable=broad-except
+        pass
+
+
 def _read(path):
     try:
         with open(path, "rb") as handle:
@@ -644,6 +669,7 @@ def _fault_index(trace):
 def _baseline(ctx, mods, variant, path, case):
     """ the fault-free run: counts events, checks the order of the trace, returns the reference """
     results = build_results(mods)
+    _warm(results)
     error, trace, sink = _attempt(results, variant, path, None)
     ctx.count("op:faultfree-run")
     if error is not None:
@@ -656,8 +682,8 @@ def _baseline(ctx, mods, variant, path, case):
     try:
         data = orjson.loads(produced)
         recs = data["records"] if fn_name == "write_to_file" else data
-        expected = [sorted(k for k, v in zip([f"antismash.vf.m{j}_{kind}" for j, kind in enumerate(kinds)], kinds)
-                           if kind != "none") for kinds in mods]
+        expected = [sorted(f"antismash.vf.m{j}_{kind}" for j, kind in enumerate(kinds) if kind != "none")
+                    for kinds in mods]
         if [sorted(r["modules"]) for r in recs] != expected:
             ctx.violate("fault-free-output-incomplete", facts, case)
             return None
@@ -687,6 +713,9 @@ def _fault_run(ctx, mods, variant, path, baseline, fault, case, natural=False):
     """ one fault run and all oracle clauses; returns False when the fault could not be placed """
     fn_name, target, pre = variant
     results = baseline["results"] if baseline else build_results(mods)
+    if fault and fault[2] in PLANT_KINDS and fault[:2] == ("conv", 1) and fn_name == "dump_records":
+        ctx.count("W:plant-not-applicable")      # the value returned by the function under test itself is not converted
+        return False
     error, trace, sink = _attempt(results, variant, path, fault)
     fired = _M.fired or natural
     if not fired:
@@ -802,6 +831,7 @@ def sweep_shape(ctx, mods, variants, path, extras, aux_kinds, summary):
                 for kind in kinds:
                     fault = ("aux", pos, kind)
                     _fault_run(ctx, mods, variant, path, baseline, fault, dict(case0, fault=list(fault)))
+                    _warm(baseline["results"])       # an interrupted cache fill must not shift later positions
                     summary["aux_fault_runs"] += 1
                 summary["aux_positions_hit"] += 1
         # the sweep must not have changed the results object: same events, same bytes
@@ -847,7 +877,7 @@ D_FILES = {
     "region": {"in.region001.gbk": b"LOCUS       region one\n//\n"},
     "file": {"notes.txt": b"precious notes"},
     "dir": {"stray/keep.txt": b"keep me", "stray/in.region001.gbk": b"nested region file",
-            "stray/input/nested.gbk": b"nested input"},
+            "stray/input/nested.gbk": b"nested input"},        # materialised from D_POOL_DIRS["stray"]
     "html": {"index.html": b"<html>old results</html>"},
     "hidden": {".hidden": b"hidden but precious"},
     "nearmiss": {"in.region0001.gbk": b"four digits", "in.region01.gbk": b"two digits",
@@ -856,35 +886,85 @@ D_FILES = {
 
 
 def _snapshot(root):
+    """ recursive listing: relative path -> 'dir' | 'file:<sha1 of content>' """
     listing = {}
-    for base, dirs, files in os.walk(root):
-        for name in dirs:
-            listing[os.path.relpath(os.path.join(base, name), root)] = "dir"
-        for name in files:
-            full = os.path.join(base, name)
-            with open(full, "rb") as handle:
-                listing[os.path.relpath(full, root)] = "file:" + hashlib.sha1(handle.read()).hexdigest()
+    cut = len(root) + 1
+    stack = [root]
+    while stack:
+        current = stack.pop()
+        with os.scandir(current) as entries:
+            for entry in entries:
+                if entry.is_dir(follow_symlinks=False):
+                    listing[entry.path[cut:]] = "dir"
+                    stack.append(entry.path)
+                else:
+                    with open(entry.path, "rb") as handle:
+                        listing[entry.path[cut:]] = "file:" + hashlib.sha1(handle.read()).hexdigest()
     return listing
 
 
-def _put(path, content):
-    os.makedirs(os.path.dirname(path), exist_ok=True)
+def _put(path, content, parents=True):
+    if parents:
+        os.makedirs(os.path.dirname(path), exist_ok=True)
     with open(path, "wb") as handle:
         handle.write(content)
+
+
+D_POOL_DIRS = {
+    "input": {"in.gbk": b"LOCUS input copy\n//\n"},
+    "stray": {"keep.txt": b"keep me", "in.region001.gbk": b"nested region file", "input/nested.gbk": b"nested input"},
+}
+D_STATIC = {"src/in.gbk": b"LOCUS input\n//\n", "elsewhere/prev.json": b'{"version": "elsewhere"}',
+            "elsewhere/prev.region001.gbk": b"another run's region", "logs/run.log": b"outside log\n"}
+_SANDBOX_STATE: dict = {}
+
+
+def _sandbox_reset(sandbox):
+    """ (re)builds the persistent skeleton; directories are expensive to remove, so whole sub-trees are parked in
+        pool/ and renamed into place per case """
+    if os.path.lexists(sandbox):
+        shutil.rmtree(sandbox)
+    os.makedirs(os.path.join(sandbox, "cwd"))
+    os.makedirs(os.path.join(sandbox, "out"))
+    for rel, content in D_STATIC.items():
+        _put(os.path.join(sandbox, rel), content)
+    for name, files in D_POOL_DIRS.items():
+        for rel, content in files.items():
+            _put(os.path.join(sandbox, "pool", name, rel), content)
+    _SANDBOX_STATE[sandbox] = _snapshot(sandbox)
+
+
+def _sandbox_clean(sandbox, outdirs):
+    """ back to the skeleton after a case; anything unexpected leads to a full rebuild """
+    try:
+        for outdir in outdirs:
+            if not os.path.lexists(outdir):
+                continue
+            if not os.path.isdir(outdir):
+                os.remove(outdir)
+                continue
+            for entry in os.listdir(outdir):
+                full = os.path.join(outdir, entry)
+                if os.path.isdir(full):
+                    os.rename(full, os.path.join(sandbox, "pool", entry))      # fails if the slot is taken
+                else:
+                    os.remove(full)
+            if outdir != os.path.join(sandbox, "out"):
+                os.rmdir(outdir)
+        if not os.path.isdir(os.path.join(sandbox, "out")):
+            os.mkdir(os.path.join(sandbox, "out"))
+        if _snapshot(sandbox) != _SANDBOX_STATE[sandbox]:
+            _sandbox_reset(sandbox)
+    except OSError:
+        _sandbox_reset(sandbox)
 
 
 def run_dir_case(ctx, sandbox, case, main_module, config_module):
     """ case: {"elements": [...], "input": absent|dir|file, "mode", "logcfg", "cwd": neutral|in-stray,
                "name": explicit|derived, "path_state": exists|missing|file} """
-    if os.path.exists(sandbox):
-        shutil.rmtree(sandbox)
-    os.makedirs(sandbox)
+    if sandbox not in _SANDBOX_STATE or not os.path.isdir(sandbox):
+        _sandbox_reset(sandbox)
     neutral = os.path.join(sandbox, "cwd")
-    os.makedirs(neutral)
-    _put(os.path.join(sandbox, "src", "in.gbk"), b"LOCUS input\n//\n")
-    _put(os.path.join(sandbox, "elsewhere", "prev.json"), b'{"version": "elsewhere"}')
-    _put(os.path.join(sandbox, "elsewhere", "prev.region001.gbk"), b"another run's region")
-    _put(os.path.join(sandbox, "logs", "run.log"), b"outside log\n")
     mode = case["mode"]
     stem = "prev" if mode == "reuse-elsewhere" else "in"
     outdir = os.path.join(neutral, stem) if case["name"] == "derived" else os.path.join(sandbox, "out")
@@ -892,17 +972,32 @@ def run_dir_case(ctx, sandbox, case, main_module, config_module):
                   "reuse-inside": os.path.join(outdir, "in.json"),
                   "reuse-elsewhere": os.path.join(sandbox, "elsewhere", "prev.json")}[mode]
     state = case["path_state"]
+    try:
+        _run_dir_case(ctx, sandbox, case, main_module, config_module, neutral, outdir, input_file, state)
+    finally:
+        _sandbox_clean(sandbox, [outdir, os.path.join(sandbox, "out")])
+
+
+def _run_dir_case(ctx, sandbox, case, main_module, config_module, neutral, outdir, input_file, state):
+    mode = case["mode"]
     if state == "exists":
-        os.makedirs(outdir)
+        if not os.path.isdir(outdir):
+            os.mkdir(outdir)
         for element in case["elements"]:
+            if element == "dir":
+                os.rename(os.path.join(sandbox, "pool", "stray"), os.path.join(outdir, "stray"))
+                continue
             for rel, content in D_FILES[element].items():
-                _put(os.path.join(outdir, rel), content)
+                _put(os.path.join(outdir, rel), content, parents=False)
         if case["input"] == "dir":
-            _put(os.path.join(outdir, "input", "in.gbk"), b"LOCUS input copy\n//\n")
+            os.rename(os.path.join(sandbox, "pool", "input"), os.path.join(outdir, "input"))
         elif case["input"] == "file":
-            _put(os.path.join(outdir, "input"), b"a file that is merely called input")
-    elif state == "file":
-        _put(outdir, b"a file where the directory should be")
+            _put(os.path.join(outdir, "input"), b"a file that is merely called input", parents=False)
+    else:
+        if os.path.isdir(outdir):
+            os.rmdir(outdir)
+        if state == "file":
+            _put(outdir, b"a file where the directory should be", parents=False)
     logfile = {"unset": "", "inside": os.path.join(outdir, "run.log"),
                "outside": os.path.join(sandbox, "logs", "run.log")}[case["logcfg"]]
     cwd = os.path.join(outdir, "stray") if case["cwd"] == "in-stray" else neutral
@@ -933,7 +1028,7 @@ def run_dir_case(ctx, sandbox, case, main_module, config_module):
         os.chdir(old_cwd)
     trace = [list(e[1:]) for e in _M.trace if e[0] == "fs"]
     after = _snapshot(sandbox)
-    rel_out = os.path.relpath(outdir, sandbox)
+    rel_out = outdir[len(sandbox) + 1:]
     removed = sorted(set(before) - set(after))
     added = sorted(set(after) - set(before))
     changed = sorted(k for k in set(before) & set(after) if before[k] != after[k])
@@ -996,7 +1091,7 @@ def run_dir_case(ctx, sandbox, case, main_module, config_module):
         ctx.count("D:accepted-own-content-only")
     if facts["changes_beyond_region_gbk"]:
         ctx.violate("accepted-run-damaged-contents", facts, case)
-    bad_events = [e for e in trace if not (e[0] == "os.remove" and os.path.relpath(e[1], sandbox) in removable)]
+    bad_events = [e for e in trace if not (e[0] == "os.remove" and e[1][len(sandbox) + 1:] in removable)]
     if bad_events:
         ctx.violate("accepted-run-touched-other-paths", dict(facts, fs_events=bad_events), case)
     if removed and mode != "fresh":
@@ -1010,6 +1105,9 @@ def dir_cases(elements_universe, full):
     cases = []
     for size in range(len(elements_universe) + 1):
         for subset in itertools.combinations(elements_universe, size):
+            beyond = [e for e in subset if e not in D_DESIGN_ELEMENTS]
+            if not full and beyond and (len(beyond) > 1 or len(subset) > 4):
+                continue        # quick tier: the two added elements only singly, next to <= 3 others
             for inp in D_INPUT:
                 for mode in D_MODES:
                     for logcfg in D_LOGCFG:
@@ -1098,6 +1196,7 @@ def run(ctx):
     try:
         _run(ctx, base, main_module, config_module)
     finally:
+        _M.uninstall_monitoring()
         logging.disable(previous_disable)
         shutil.rmtree(base, ignore_errors=True)
     if _M.hook_errors:
@@ -1207,5 +1306,6 @@ def replay(ctx, case):
         else:
             run_dir_case(ctx, os.path.join(base, "d"), case, main_module, config_module)
     finally:
+        _M.uninstall_monitoring()
         logging.disable(logging.NOTSET)
         shutil.rmtree(base, ignore_errors=True)
